@@ -77,7 +77,11 @@ impl ToleranceMap for DiscreteDomainTolMap {
             None
         } else if let Some(i) = self.domain.index_of(x) {
             Some(self.tol_zones[i])
+        } else if x < self.domain[0] {
+            // Each zone starts at its domain value, so nothing applies before the first one
+            None
         } else {
+            // The last zone extends to infinity
             Some(self.tol_zones[self.tol_zones.len() - 1])
         }
     }
